@@ -572,6 +572,14 @@ pub fn run_parsetree(cfg: &Cfg) {
             asts.push(c(&f));
         }
     }
+    // a general condition that is itself a back-reference expression (`(?(\\1)y|n)`: matched, not a group test - F21),
+    // bare, grouped, inside a concatenation, with and without the no-branch
+    for c in [P::Bref(1), cat(vec![P::Bref(1)]), cat(vec![P::Bref(1), lit('b')]), grp(P::Bref(1)), opt(P::Bref(1))] {
+        for (y, n) in [(lit('b'), lit('c')), (lit('b'), P::Empty), (P::Empty, lit('c')), (grp(lit('b')), cat(vec![lit('c'), lit('a')]))] {
+            asts.push(cat(vec![grp(lit('a')), P::Cond(Box::new(c.clone()), Box::new(y.clone()), Box::new(n.clone()))]));
+            asts.push(cat(vec![opt(grp(lit('a'))), P::Cond(Box::new(c.clone()), Box::new(y), Box::new(n)), lit('b')]));
+        }
+    }
     let mut r = Rng(cfg.seed ^ 0x7ee);
     for _ in 0..(if thorough { 200000 } else { 40000 }) {
         let mut groups = 0;
